@@ -11,8 +11,8 @@ func init() {
 	register(&propInfo{
 		ID:          "C14",
 		Run:         runC14,
-		MinObl:      20,
-		Explanation: "Decided: R1 issuance gates — every ID-token sink in the OIDC handlers (explicit, refresh, device, implicit, hybrid) is reached only with Has(granted scopes, openid) true for the grant being served, and GenerateIDToken succeeds only with a non-empty subject; R2 claim provenance in GenerateIDToken: nonce ← the request's nonce (only if at least the minimum length), aud ∋ the requesting client's id, issuer defaulted from the provider when empty, a zero expiry becomes now+lifespan and an expiry before now fails, and unsatisfied max_age / prompt=none|login / id_token_hint subject mismatch are fail exits; R3 hashes: at_hash is computed from responder.GetAccessToken() / the access_token parameter of the same response and c_hash from its code parameter; the hash helper returns base64url of the left half of SHA-256/384/512 chosen by the digits of the header alg; on refresh c_hash is cleared and at_hash recomputed; R4 in ComposeAllEnabled each OAuth2 handler precedes its OIDC companion (explicit, refresh, device). NOT decided: signature validity of the emitted JWT, time arithmetic, what the application put into the session claims.",
+		MinObl:      24,
+		Explanation: "Decided: R1 issuance gates — every ID-token sink in the OIDC handlers (explicit, refresh, device, implicit, hybrid) is reached only with Has(granted scopes, openid) true for the grant being served, and GenerateIDToken succeeds only with a non-empty subject; R2 claim provenance in GenerateIDToken: nonce ← the request's nonce (only if at least the minimum length), aud ∋ the requesting client's id, issuer defaulted from the provider when empty, a zero expiry becomes now+lifespan and an expiry before now fails, and unsatisfied max_age / prompt=none|login / id_token_hint subject mismatch are fail exits; R3 hashes: at_hash is computed from responder.GetAccessToken() / the access_token parameter of the same response and c_hash from its code parameter; the hash helper returns base64url of the left half of SHA-256/384/512 chosen by the digits of the header alg; on refresh c_hash is cleared and at_hash recomputed; R4 in ComposeAllEnabled each OAuth2 handler precedes its OIDC companion (explicit, refresh, device). R5 the authorize-endpoint validator (ValidatePrompt) succeeds only with a non-empty subject, and — whenever the prompt list is not known to lack the value — with auth_time not before the request time for login, auth_time present and not after it for none, auth_time + max_age not before it for max_age > 0, and the hint's sub equal to the session subject for an id_token_hint (the strategy's own switch only matches single-valued prompts, so this is the only guard for \"login consent\"). NOT decided: signature validity of the emitted JWT, time arithmetic, what the application put into the session claims.",
 	})
 }
 
@@ -21,6 +21,8 @@ func runC14(c *Ctx) {
 	c14Generate(c)
 	c14Hashes(c)
 	c14Order(c)
+	c14Prompt(c)
+	c14IssueFromStored(c)
 }
 
 func c14R1(c *Ctx) {
